@@ -71,3 +71,39 @@ Proof.
   - cbn. intros o a b H. repeat (destruct H as [H|H]; [injection H as <- <- <-; reflexivity|]). destruct H.
   - vm_compute. reflexivity.
 Qed.
+
+(* ======================= the two TEXT formats ===================================
+   Modelled in TextFmt.v: FlatTextRenderer / NestedTextRenderer (message, sections,
+   'name = value' lines, template-data lines) and utils.flat_text_to_flat_json /
+   nested_text_to_flat_json with section_text_to_flat_json and the two subsets_*
+   loops.  EXTERNAL, universally quantified: Python's repr ('{!r}') and
+   ast.literal_eval; the side conditions (TextFmtSpec.v, TextFmtFlat.v,
+   TextFmtNested.v) say what the parsers need of them. *)
+From PBK Require Import TextFmt TextFmtSpec TextFmtFlat TextFmtExamples.
+
+(* 5. flat text: every value starts at column 81 of its line, in both line formats *)
+Theorem C09_flat_text_value_column :
+  forall (repr : pyv -> str) links idx c,
+    exists pre, flat_line repr links idx c = pre ++ repr (fobj c) /\ length pre = 81%nat /\
+                exists c0 t, pre = c0 :: t /\ TextFmtStrings.fw_char c0 = true.
+Proof. exact flat_line_column. Qed.
+Print Assumptions C09_flat_text_value_column.
+
+(* 6. flat text -> flat JSON: for every message (any sections, parameters, subsets, values,
+      links, descriptor texts) whose lines hold no line break, whose 'name = value' lines
+      split in two at ' = ', whose printed objects literal_eval reads back, and whose
+      template data is the last parameter of a section that is followed by another one *)
+Theorem C09_flat_text_roundtrip :
+  forall (repr : pyv -> str) (leval : str -> result pyv) (m : message (list fsubset)),
+    flat_message_ok repr leval m ->
+    flat_text_to_flat_json leval (render_flat_text repr m) = Ok (flat_json_of flat_td_values m).
+Proof. exact flat_text_roundtrip. Qed.
+Print Assumptions C09_flat_text_roundtrip.
+
+(* non-vacuity: four sections; three subsets (the last empty); a flag-table tuple, a bytes
+   value containing " b'", a bitmap-linked line, a 100-character descriptor text, None *)
+Example C09_flat_text_nonvacuous :
+  flat_message_ok toy_repr (toy_leval ex_flat_univ) ex_flat_msg /\
+  exists j, flat_text_to_flat_json (toy_leval ex_flat_univ) (render_flat_text toy_repr ex_flat_msg) = Ok j /\
+            length j = 4%nat.
+Proof. split; [exact ex_flat_ok|]. eexists. split; [exact ex_flat_roundtrip|reflexivity]. Qed.
